@@ -24,13 +24,9 @@ func baseT(r *rand.Rand) TermV {
 }
 
 func singletonVal(r *rand.Rand) Val {
-	switch r.Intn(4) {
-	case 0:
+	// the library's well-formedness check admits only name constants in singleton types
+	if r.Intn(4) > 0 {
 		return Name(TrieNames[r.Intn(len(TrieNames))])
-	case 1:
-		return Num(int64(r.Intn(3)))
-	case 2:
-		return Str([]string{"a", "b", ""}[r.Intn(3)])
 	}
 	return Name("/true")
 }
